@@ -180,9 +180,9 @@ func init() {
 				return
 			}
 			s := t.text
-			r.Check(strings.Contains(s, "ALT[($1.Variadic()&&(i1==($1.Params().Len()-1)))]{ ⟨$5.paramNames[i1]⟩ ... ⟨types.TypeString($1.Params().At(i1).Type().(*types.Slice).Elem(),$5.g.qualifyPkg)⟩ }"),
+			r.Check(strings.Contains(s, "⟨$5.paramNames[i1]⟩ ALT[($1.Variadic()&&(i1==($1.Params().Len()-1)))]{ ... ⟨types.TypeString($1.Params().At(i1).Type().(*types.Slice).Elem(),$5.g.qualifyPkg)⟩ }{ ⟨types.TypeString($1.Params().At(i1).Type(),$5.g.qualifyPkg)⟩ }"),
 				"variadic-last-only", t.fi.Decl.Pos(), "`...Elem` is printed exactly for the last parameter of a variadic template")
-			r.Check(strings.Contains(s, "ALT[(len($2)==0)]{ return ⟨$5.paramNames[$3.For(funcOutput($1)#0.out).Arg().Index]⟩ }{ return ⟨$5.localNames[(len($2)-1)]⟩ }"),
+			r.Check(strings.Contains(s, "return ALT[(len($2)>0)]{ ⟨$5.localNames[(len($2)-1)]⟩ }{ ⟨$5.paramNames[$3.For(funcOutput($1)#0.out).Arg().Index]⟩ }"),
 				"returned-value", t.fi.Decl.Pos(), "returns the last step's local, or the argument that provides the result when there is no step")
 			// one name per parameter iteration and per step iteration, unconditionally
 			pApp, lApp := 0, 0
@@ -427,7 +427,7 @@ func init() {
 			// g.values has no other writer
 			w := 0
 			for _, fi := range c.all {
-				ast.Inspect(fi.Decl.Body, func(nd ast.Node) bool {
+				fi.inspect(fi.Decl.Body, func(nd ast.Node) bool {
 					if as, ok := nd.(*ast.AssignStmt); ok {
 						for _, l := range as.Lhs {
 							if ix, ok := ast.Unparen(l).(*ast.IndexExpr); ok {
@@ -459,13 +459,24 @@ func init() {
 			r.Check(ms[0][3] == "true" && ms[1][3] == "false", "passes/order", t.fi.Decl.Pos(), "the discarding pass runs first, the emitting pass second")
 			r.Check(ms[0][1] == ms[1][1], "passes/same-inputs", t.fi.Decl.Pos(), "both passes receive the same name, signature, calls, set and doc")
 			r.Check(ms[0][2] == ms[1][2] && ms[0][2] == `disambiguate("err",recv.nameInFileScope)`, "passes/same-errVar", t.fi.Decl.Pos(), "both passes compute the error variable identically (file-scope disambiguation of err)")
-			// both top-level (unconditional after the checks)
+			// both run unconditionally once the error checks have passed: their only context is the
+			// no-error side of tests on funcOutput / solve / the per-call checks
 			top := 0
-			for _, n := range t.nodes {
-				if ef, ok := n.(*emEff); ok && strings.HasPrefix(ef.desc, "CALL injectPass(") {
+			walkTrace(t.nodes, nil, func(n emNode, ctx []string) {
+				ef, ok := n.(*emEff)
+				if !ok || !strings.HasPrefix(ef.desc, "CALL injectPass(") {
+					return
+				}
+				okCtx := true
+				for _, cx := range ctx {
+					if !(strings.HasPrefix(cx, "ALT-[") && (strings.Contains(cx, "funcOutput(") || strings.Contains(cx, "solve(") || strings.Contains(cx, "checkCalls("))) {
+						okCtx = false
+					}
+				}
+				if okCtx {
 					top++
 				}
-			}
+			})
 			r.Check(top == 2, "passes/unconditional", t.fi.Decl.Pos(), "both passes run unconditionally once the checks have passed")
 			// writeAST / other direct writers inside the passes honour discard: body emitters use only ig.p
 			for _, name := range bodyEmitters {
@@ -474,7 +485,7 @@ func init() {
 					continue
 				}
 				direct := 0
-				for _, cl := range callsIn(fi.Decl.Body) {
+				for _, cl := range fi.callsDeep(fi.Decl.Body) {
 					n := fi.calleeName(cl)
 					if n == pathW+".gen.p" || n == pathW+".gen.writeAST" || n == "fmt.Fprintf" || strings.HasPrefix(n, "bytes.Buffer.Write") {
 						direct++
@@ -496,7 +507,7 @@ func init() {
 				if fi.Pkg != c.W {
 					continue
 				}
-				for _, cl := range callsIn(fi.Decl.Body) {
+				for _, cl := range fi.callsDeep(fi.Decl.Body) {
 					n := fi.calleeName(cl)
 					if n != fnTypeString && n != pathW+".zeroValue" {
 						continue
@@ -567,3 +578,21 @@ func init() {
 }
 
 var _ = types.Universe
+
+// spineToks returns the tokens emitted unconditionally once the early-exit
+// guards have passed: top-level tokens, descending into the non-exit arm of
+// an ALT whose other arm is empty because it was an early return.
+func spineToks(ns []emNode) []string {
+	var out []string
+	for _, n := range ns {
+		switch x := n.(type) {
+		case *emTok:
+			out = append(out, x.toks...)
+		case *emAlt:
+			if len(x.then) == 0 && strings.Contains(x.cond, "Len()==0") {
+				out = append(out, spineToks(x.els)...)
+			}
+		}
+	}
+	return out
+}
